@@ -112,6 +112,10 @@ type Spec[C any] struct {
 	BudgetSec func(tier string) int
 	Batch     int
 	Workers   int // >0: fixed worker count (1 for checks that touch process-global state of rux)
+	// ReplayAttempts > 1: a confirmation replay may be repeated that many times before the violation counts as
+	// not reproducible. Only for checks whose nondeterminism lives in the code under test and is documented (C16:
+	// Go map iteration order inside Resource).
+	ReplayAttempts int
 	// StateGraph is true when States/Transitions are real state-graph counts.
 	StateGraph bool
 }
@@ -402,13 +406,18 @@ func Main[C any](s Spec[C], args []string) int {
 			return 2
 		}
 		ok := true
+		attempts := s.ReplayAttempts
+		if attempts < 1 {
+			attempts = 1
+		}
 		for i := 0; i < 2; i++ {
-			st := newStats()
-			vs := s.Run(c, st)
 			has := false
-			for _, v := range vs {
-				if v.Sig == sig {
-					has = true
+			for a := 0; a < attempts && !has; a++ {
+				st := newStats()
+				for _, v := range s.Run(c, st) {
+					if v.Sig == sig {
+						has = true
+					}
 				}
 			}
 			if !has {
